@@ -9,7 +9,7 @@ CONSTANTS MaxLeaves, MaxArity, FullUpTo     \* all numeral lists for trees with 
 VARIABLES inp, labels, phase
 vars == <<inp, labels, phase>>
 
-Init == /\ \E n \in 1..MaxLeaves : inp \in TreesOver(0..(n - 1), MaxArity, FALSE, 2) /\ labels \in LabelLists(n, n <= FullUpTo)
+Init == /\ \E n \in 1..MaxLeaves : inp \in TreesOver(0..(n - 1), MaxArity, FALSE, 3) /\ labels \in LabelLists(n, n <= FullUpTo)
         /\ phase = 0
 Next == phase = 0 /\ phase' = 1 /\ UNCHANGED <<inp, labels>>
 Spec == Init /\ [][Next]_vars
